@@ -217,3 +217,83 @@ func H_C08_clone_spare_capacity() {
 	}
 	verifReach("end")
 }
+
+// user-defined containers (structs embedding List/Object, registered with Init) held as values inside the
+// tree: they are Lists/Objects reachable from the original, so nothing reachable from the clone may be
+// identical to them, and a later mutation inside one side must not show on the other
+func H_C08_clone_with_derived_children() {
+	x := nondetInt()
+	dl := hDerivedList(x, "s")
+	do := hDerivedObject("q", x)
+	var c any
+	if nondetIntRange(0, 1) == 0 {
+		c = NewList(dl, do, NewObject("in", do))
+	} else {
+		c = NewObject("l", dl, "o", do, "n", NewList(dl))
+	}
+	before := hSnapAny(c)
+	cl := hCloneAny(c)
+	verifAssert(hExact(before, hSnapAny(cl)), "the clone has the same content")
+	var co, cc []any
+	hContainers(c, &co)
+	hContainers(cl, &cc)
+	shared := false
+	for _, a := range co {
+		for _, b := range cc {
+			if a == b {
+				shared = true
+			}
+		}
+	}
+	verifAssert(!shared, "no container reachable from the clone is reachable from the original")
+	if nondetIntRange(0, 1) == 0 {
+		hMutateSomewhere(cl)
+		verifAssert(hExact(before, hSnapAny(c)), "mutating the clone leaves the original unchanged")
+	} else {
+		hMutateSomewhere(c)
+		verifAssert(hExact(before, hSnapAny(cl)), "mutating the original leaves the clone unchanged")
+	}
+	verifReach("end")
+}
+
+// cloning the same container repeatedly with mutations in between: every Clone reflects the content at the
+// time of that call, and all clones stay independent of the original and of each other
+func H_C08_clone_repeatedly() {
+	x, y := nondetInt(), hBytesStr(1)
+	k := hBytesStr(1)
+	var c any
+	if nondetIntRange(0, 1) == 0 {
+		c = NewList(x, NewObject(k, y), NewList(y))
+	} else {
+		c = NewObject(k, NewList(x, NewObject("z", y)), "w", x)
+	}
+	cl1 := hCloneAny(c)
+	s1 := hSnapAny(cl1)
+	if nondetIntRange(0, 1) == 0 {
+		hMutateSomewhere(c)
+	} else {
+		hMutateSomewhere(cl1)
+		s1 = hSnapAny(cl1)
+	}
+	now := hSnapAny(c)
+	cl2 := hCloneAny(c)
+	verifAssert(hExact(now, hSnapAny(cl2)), "a later Clone has the content the original has at that time")
+	verifAssert(hExact(s1, hSnapAny(cl1)), "a later Clone of the original leaves an earlier clone unchanged")
+	var co, c1, c2 []any
+	hContainers(c, &co)
+	hContainers(cl1, &c1)
+	hContainers(cl2, &c2)
+	shared := false
+	for _, a := range c2 {
+		for _, b := range co {
+			shared = shared || a == b
+		}
+		for _, b := range c1 {
+			shared = shared || a == b
+		}
+	}
+	verifAssert(!shared, "no container reachable from a clone is reachable from the original or from another clone")
+	hMutateSomewhere(cl2)
+	verifAssert(hExact(now, hSnapAny(c)) && hExact(s1, hSnapAny(cl1)), "mutating a clone leaves the original and the other clones unchanged")
+	verifReach("end")
+}
